@@ -34,6 +34,9 @@ pub struct Driver {
     pub f3_seen: bool,
     pub f10_seen: bool,
     pub hist_id: String,
+    /// a violation outside the recorded classes happened: the history stops
+    pub fatal: bool,
+    reported: HashSet<String>,
 }
 
 fn ids_json(w: &World, ids: &[ProposalShortId]) -> Value {
@@ -43,13 +46,28 @@ fn ids_json(w: &World, ids: &[ProposalShortId]) -> Value {
 impl Driver {
     pub fn new(cfg: WorldCfg, mode_c12: bool, hist_id: String) -> Driver {
         let w = World::new(cfg);
-        Driver { w, obs: Obs::default(), mode_c12, last_dump: None, f3_seen: false, f10_seen: false, hist_id }
+        Driver { w, obs: Obs::default(), mode_c12, last_dump: None, f3_seen: false, f10_seen: false, hist_id, fatal: false, reported: HashSet::new() }
     }
 
     fn violation(&mut self, what: &str, detail: Value, signature: Option<&str>) {
-        let mut v = json!({"what": what, "detail": detail, "history_id": self.hist_id, "history": self.w.jops});
+        if what.starts_with(if self.mode_c12 { "C13" } else { "C12" }) {
+            self.w.stat("other_property_violation_not_reported_in_this_mode");
+            return;
+        }
+        let key = format!("{what} {detail} {signature:?}");
+        if !self.reported.insert(key) {
+            return;
+        }
+        let mut v = json!({"what": what, "detail": detail, "history_id": self.hist_id});
         if let Some(s) = signature {
             v["signature"] = json!(s);
+            // known classes: keep the record small, the history goes on
+            let n = self.w.jops.len();
+            v["history_tail"] = json!(self.w.jops[n.saturating_sub(12)..].to_vec());
+            self.w.stat("known_class_violation");
+        } else {
+            v["history"] = json!(self.w.jops);
+            self.fatal = true;
         }
         self.w.viol.push(v);
     }
@@ -81,6 +99,13 @@ impl Driver {
             "size": real_size, "cycles": cycles, "max_block_bytes": consensus.max_block_bytes(), "max_block_cycles": consensus.max_block_cycles(),
             "tx_ids": block.transactions().iter().skip(1).map(|tx| self.w.tx_no(&tx.hash())).collect::<Vec<_>>() });
         self.obs.c13_evals += 1;
+        let desc = {
+            let (d, _) = self.w.node.pool().verif_dump();
+            let mut desc = desc;
+            desc["pool_aggregates_consistent"] = json!(crate::pred::aggregates_consistent(&d));
+            desc["c11_f3_situation_seen"] = json!(self.f3_seen);
+            desc
+        };
         // (iii) limits
         if real_size as u64 > consensus.max_block_bytes() {
             self.violation("C13 template larger than max_block_bytes", desc.clone(), None);
@@ -227,7 +252,20 @@ impl Driver {
             self.w.stat(&format!("reorg_depth_{}", std::cmp::min(ch.detached.len(), 8)));
         }
         self.note_c11_classes(ch, before.as_ref());
-        let r = crate::pred::c12_predicate(&self.w, &dump, ch, before.as_ref());
+        {
+            let mut pool: Vec<(u64, &str)> = dump.entries.iter().map(|e| (self.w.tx_id.get(&e.tx_hash).map(|x| *x as u64).unwrap_or(0), status_name(e.status))).collect();
+            pool.sort();
+            let tipn = self.w.node.tip().number();
+            self.w.log(json!({"pool_after_change": {"tip": tipn, "detached": ch.detached.len(), "attached": ch.attached.len(),
+                "pool": pool.iter().map(|(i, s)| format!("{i}{}", &s[..2])).collect::<Vec<_>>().join(" ")}}));
+        }
+        let mut learn = vec![];
+        let mut lost = vec![];
+        let r = crate::pred::c12_predicate(&self.w, &dump, ch, before.as_ref(), &mut learn, &mut lost);
+        for (h, s) in learn {
+            self.w.orphan_cause.entry(h).or_insert(s);
+        }
+        self.w.lost_detached.extend(lost);
         self.obs.c12_evals += 1;
         for (k, n) in &r.counts {
             *self.w.stats.entry(k.clone()).or_default() += *n;
@@ -445,9 +483,14 @@ impl Driver {
         // the pool did not see a chain change, but the property's second clause is about the pool at any time
         let (dump, _) = self.w.node.pool().verif_dump();
         let r = crate::pred::c12_unresolvable(&self.w, &dump);
-        if self.mode_c12 {
-            for (what, detail, _) in r {
-                self.violation(&what, json!({"after": "two-step submission", "detail": detail}), Some("submit_entry inserts a child whose parent left the pool after pre_check"));
+        for (what, detail, ph) in r {
+            let known = self.w.orphan_cause.get(&ph).cloned();
+            let sig = known.or(if ph == parent.tx_hash { Some(crate::pred::SIG_F7) } else { None });
+            if let Some(s) = sig {
+                self.w.orphan_cause.entry(ph).or_insert(s);
+            }
+            if self.mode_c12 {
+                self.violation(&what, json!({"after": "two-step submission", "detail": detail}), sig);
             }
         }
         self.last_dump = Some(dump);
@@ -460,7 +503,7 @@ impl Driver {
             self.step_mine(rng, "warmup");
         }
         for _ in 0..steps {
-            if !self.w.viol.is_empty() {
+            if self.fatal || self.w.viol.len() > 200 {
                 break;
             }
             let tip = self.w.node.tip().number();
